@@ -33,7 +33,11 @@ NOTE = ('Held-on-observed only: the monitors decide the executions the workload 
         'came through 16 persistence routes, CRC-32 / hash twins, user subclasses, edits of returned containers, re-entrant '
         'argument collections, generators closed or thrown into, read-only queries cut short by injected exceptions or made '
         'with little stack left (fault injection; the aborted call is never judged, everything after it is), shards under '
-        '-O and under library-warnings-as-errors / -bb / -X dev. Concurrency is outside the properties (no schedules).')
+        '-O and under library-warnings-as-errors / -bb / -X dev. Round 10/11 additions (DESIGN 1.6): exports / loads / persistence '
+        'attempts failed by the environment (missing directory, full device, codec, dialect that cannot quote) or refused for a '
+        'legitimate reason before the judged calls, sources edited after refused derivations, first traversals given up early, '
+        'the same ill-formed arguments submitted again, stateful label callables reused, hash / CRC twin tables and texts in C12, '
+        'C14 and C19. Concurrency is outside the properties (no schedules).')
 
 def main():
     props = [json.loads(l) for l in open(os.path.join(ROOT, 'properties.jsonl'))]
